@@ -12,7 +12,12 @@ case "$v" in
   nobatch-wrap) feat="--no-default-features"; prof="--profile wrap" ;;
   *) echo "unknown variant $v" >&2; exit 2 ;;
 esac
-CARGO_TARGET_DIR=/verif/target/$v cargo build $prof $feat --quiet 2>&1 | grep -v "^warning: unused\|^$" | head -40 >&2 || true
+# MIPIDSI_SRC=<dir>: build against a scratch copy of the repository instead of /repo (self-test only)
+tdir=/verif/target/$v; cfgarg=()
+if [ -n "${MIPIDSI_SRC:-}" ]; then
+  tdir="${MC_TARGET_BASE:-/tmp/mc-target}/$v"; cfgarg=(--config "patch.crates-io.mipidsi.path=\"$MIPIDSI_SRC\"")
+fi
+mkdir -p "$tdir"; CARGO_TARGET_DIR=$tdir cargo build $prof $feat --quiet "${cfgarg[@]}" >"$tdir.log" 2>&1 || { tail -40 "$tdir.log" >&2; echo "MACHINERY: cargo build failed" >&2; exit 2; }
 d=release; [[ "$v" == *wrap* ]] && d=wrap
-test -x /verif/target/$v/$d/mc || { echo "MACHINERY: build of variant $v failed" >&2; exit 2; }
-echo /verif/target/$v/$d/mc
+test -x $tdir/$d/mc || { echo "MACHINERY: build of variant $v failed" >&2; exit 2; }
+echo $tdir/$d/mc
